@@ -1260,3 +1260,10 @@ _SRC = [
     (R(r'<Vec<.*> as Extend<.*>>::extend::<.*'), vec_extend_any),
 ]
 MODELS_NORM = [(re.compile(norm_path(p.pattern)), f) for p, f in _SRC] + MODELS_NORM
+
+# ------------------------------------------------------------------ Into::into is the blanket impl over From::from (thiserror #[from] impls are in-crate MIR)
+def into_via_from(eng, c, a, g):
+    m = re.fullmatch(r'<(.+) as Into<(.+)>>::into', c.strip())
+    if not m: raise Unsupported('Into::into shape: ' + c)
+    return eng.dispatch(f'<{m.group(2)} as From<{m.group(1)}>>::from', a, g, None)
+MODELS_NORM = MODELS_NORM + [(re.compile(r'<.+ as Into<.+>>::into'), into_via_from)]
